@@ -72,6 +72,22 @@ theorem CInv.ext {W : Colls} {T T' : Types} {cache : List (GKind × GKind)} (h :
               simpa [Types.unfoldKind, Types.unfoldVT] using hta
         | _ => simp [ItemKind.hasId] at hid'
       | func _ => simp [ItemKind.hasId] at hid'
+      | type ty =>
+        cases ty with
+        | value v =>
+          cases v with
+          | prim p =>
+            cases n with
+            | zero => simp [Types.unfoldKind] at hta
+            | succ n =>
+              cases n with
+              | zero => simp [Types.unfoldKind, Types.unfoldVT] at hta
+              | succ n =>
+                refine ⟨n + 2, ?_⟩
+                simpa [Types.unfoldKind, Types.unfoldVT] using hta
+          | _ => simp [ItemKind.hasId] at hid'
+        | func _ => simp [ItemKind.hasId] at hid'
+        | _ => cases l
       | _ => cases l
   intro at_ a bt b hat hbt hmem n ta tb hta htb
   obtain ⟨k1, k2⟩ := h.keys _ hmem
@@ -107,10 +123,20 @@ theorem inner_leaf_state (fwd bwd : Checker → ItemKind → ItemKind → R × C
   · cases a with
     | func _ => cases b <;> rfl
     | value _ => cases b <;> rfl
+    | type ta =>
+      cases ta with
+      | func _ => cases b <;> first | rfl | (rename_i t; cases t <;> rfl)
+      | value _ => cases b <;> first | rfl | (rename_i t; cases t <;> rfl)
+      | _ => cases hl
     | _ => cases hl
   · cases b with
     | func _ => cases a <;> first | rfl | (rename_i t; cases t <;> rfl)
     | value _ => cases a <;> first | rfl | (rename_i t; cases t <;> rfl)
+    | type tb =>
+      cases tb with
+      | func _ => cases a <;> first | rfl | (rename_i t; cases t <;> rfl)
+      | value _ => cases a <;> first | rfl | (rename_i t; cases t <;> rfl)
+      | _ => cases hl
     | _ => cases hl
 
 theorem isSubtype_leaf_state (n : Nat) (c : Checker) (at_ : Types) (a : ItemKind) (bt : Types) (b : ItemKind)
@@ -147,6 +173,14 @@ theorem leaf_prim_unfolds (T : Types) {a : ItemKind} (hl : LeafK a) (hid : a.has
     | prim p => exact ⟨2, .value (.prim p), by simp [Types.unfoldKind, Types.unfoldVT]⟩
     | _ => simp [ItemKind.hasId] at hid
   | func _ => simp [ItemKind.hasId] at hid
+  | type ty =>
+    cases ty with
+    | value v =>
+      cases v with
+      | prim p => exact ⟨2, .type (.prim p), by simp [Types.unfoldKind, Types.unfoldVT]⟩
+      | _ => simp [ItemKind.hasId] at hid
+    | func _ => simp [ItemKind.hasId] at hid
+    | _ => cases hl
   | _ => cases hl
 
 theorem Types.fuel_ge (T : Types) : T.defined.length + 2 ≤ T.fuel := by
